@@ -97,7 +97,32 @@ pub fn gen_ordinary_tlv(rng: &mut Rng, tid: &[u8; 12]) -> Tlv {
             }
         };
         let n = gen_value_len(rng);
-        Tlv::new(ty, rng.bytes(n))
+        let mut v = rng.bytes(n);
+        // values that look like STUN themselves (a relayed message inside a DATA-like attribute, a value
+        // whose tail is a sealing attribute): nothing inside a value is ever an attribute of the message
+        match rng.below(12) {
+            0 => {
+                let inner_tid = gen_tid(rng);
+                let mut inner = encode(rng.below(4) as u8, 1, &inner_tid, &[Tlv::new(0x8022, b"inner".to_vec())]);
+                seal(&mut inner, Seal::Fingerprint, &[]);
+                v = inner;
+            }
+            1 => {
+                let crc = rng.bytes(4);
+                v.extend_from_slice(&[0x80, 0x28, 0x00, 0x04]);
+                v.extend_from_slice(&crc);
+            }
+            2 => {
+                v.extend_from_slice(&[0x00, 0x08, 0x00, 0x14]);
+                v.extend_from_slice(&rng.bytes(20));
+            }
+            3 => {
+                v.extend_from_slice(&[0x00, 0x1c, 0x00, 0x20]);
+                v.extend_from_slice(&rng.bytes(32));
+            }
+            _ => {}
+        }
+        Tlv::new(ty, v)
     };
     if rng.chance(1, 5) {
         t.pad_byte = *rng.pick(&[0xffu8, 0x20, 0x01, 0xa5]);
